@@ -817,7 +817,8 @@ def edit_stream(ctx, pool, n):
                 if kind == "tablename":
                     t["name"] = b[si]["tables"][ti]["name"]
                 if kind == "headers":
-                    t["nhr"], t["nhc"] = b[si]["tables"][ti]["nhr"], b[si]["tables"][ti]["nhc"]
+                    t["nhr"] = (t["nhr"] + rng.choice([0, 1, 2])) % 3
+                    t["nhc"] = (t["nhc"] + rng.choice([1, 2] if t["nhr"] == a[si]["tables"][ti]["nhr"] else [0, 1, 2])) % 3
                 if kind == "labels":
                     # change single label cells of body lines (never a corner cell of the header area)
                     for _ in range(rng.randrange(1, 3)):
@@ -956,8 +957,8 @@ def run(ctx: Ctx) -> int:
     if exe:
         step = max(1, len(recorded) // (3000 if ctx.quick else 20000))
         resolver_stream(ctx, exe, recorded[::step])
-    fails += edit_stream(ctx, pool, 8 if ctx.quick else 40)
-    fails += resize_stream(ctx, pool, 8 if ctx.quick else 40)
+    fails += edit_stream(ctx, pool, 12 if ctx.quick else 60)
+    fails += resize_stream(ctx, pool, 12 if ctx.quick else 80)
     for sig, case, detail in fails:
         ctx.oracle_fail(sig, case, detail)
     return common.finish(ctx, search)
